@@ -288,7 +288,28 @@ func analyseCodecMethod(fn *ssa.Function) method05 {
 		return m
 	}
 	in := ssa.Value(fn.Params[0])
-	ps, err := paths.Enumerate(fn, paths.Config{})
+	// unexported, loop-free helpers of the package are part of the method: a shared body of Encode and Decode, a function that
+	// returns the encoding object. Predicates (bool results) stay calls: they are guards, judged by their own rule.
+	inline := func(call *ssa.Call, callee *ssa.Function) bool {
+		if callee.Pkg != fn.Pkg || callee.Object() == nil || callee.Object().Exported() || len(callee.Blocks) == 0 {
+			return false
+		}
+		res := callee.Signature.Results()
+		if res.Len() == 1 {
+			if bt, ok := res.At(0).Type().Underlying().(*types.Basic); ok && bt.Kind() == types.Bool {
+				return false
+			}
+		}
+		for _, b := range callee.Blocks {
+			for _, sc := range b.Succs {
+				if sc.Dominates(b) {
+					return false // a loop
+				}
+			}
+		}
+		return true
+	}
+	ps, err := paths.Enumerate(fn, paths.Config{Inline: inline, MaxDepth: 2})
 	if err != nil {
 		m.why = "path enumeration failed: " + err.Error()
 		return m
@@ -332,7 +353,13 @@ func analyseCodecMethod(fn *ssa.Function) method05 {
 				if u, ok := cond.(*ssa.UnOp); ok && u.Op == token.NOT {
 					cond, taken = u.X, !taken
 				}
-				if call, ok := cond.(*ssa.Call); ok && len(call.Call.Args) == 1 && stripAll(e.Resolve(call.Call.Args[0])) == in {
+				argIsIn := func(a ssa.Value) bool {
+					for i := 0; i < 4; i++ {
+						a = stripAll(e.Resolve(a))
+					}
+					return a == in
+				}
+				if call, ok := cond.(*ssa.Call); ok && len(call.Call.Args) == 1 && argIsIn(call.Call.Args[0]) {
 					g := calleeName(call)
 					if taken {
 						guards = append(guards, g)
